@@ -11,6 +11,8 @@ class Ctx:
     def __init__(self, pid, tier, seed):
         self.pid, self.tier, self.seed = pid, tier, seed
         self.work = os.path.join(pv.OUT, "check", pid)
+        import shutil
+        shutil.rmtree(self.work, ignore_errors=True)      # every run starts from an empty work directory
         os.makedirs(self.work, exist_ok=True)
         self.registry = json.load(open(os.path.join(pv.OUT, "registry.json")))
         self.base = None
@@ -102,9 +104,9 @@ def random_program_cases(ctx, n, seed, max_points=40, steps=120, prefix="rp"):
     return cases
 
 
-def random_instr_cases(ctx, instrs, n_each, seed, prefix="ri", small_ints=False):
+def random_instr_cases(ctx, instrs, n_each, seed, prefix="ri", small_ints=False, registry=None):
     """each instruction in a random state with generous operand stacks"""
-    g = gen.Gen(seed, ctx.registry, small_ints=small_ints)
+    g = gen.Gen(seed, registry or ctx.registry, small_ints=small_ints)
     cases = []
     for name in instrs:
         for i in range(n_each):
